@@ -513,7 +513,7 @@ ALLNZ_APP = _app_lemma(allnz, z3.And, 'allnz')
 
 def lemma_proofs(modes=None):
     """(name, thunk -> [(case, 'unsat'|...)]) for every lemma the C08/C09/C10 proofs use"""
-    out = []
+    out = list(T.base_lemma_proofs())
     for mode in (modes or (MZ, MR)):
         if not mode.interpreted:
             out.append(('arithmetic laws of mul/div[%s] on the interpreted operations' % mode.m,
